@@ -391,6 +391,57 @@ def signedData (typ cls alg labels origTTL exp inc keyTag : Nat) (signerWire : B
     some (be16 typ ++ [UInt8.ofNat alg, UInt8.ofNat labels] ++ be32 origTTL ++ be32 exp ++ be32 inc ++ be16 keyTag
       ++ signerWire ++ canonicalRRset (packRR (wireName o) typ cls origTTL) rds)
 
+/-! ## `canonicalizeRdataNames` on wire RDATA (RFC 4034 §6.2 as amended by RFC 6840 §5.1) -/
+
+/-- lowercase the label contents of one uncompressed wire name at the head of
+`rd`: `(folded name, rest)`; `none` if the name is malformed. -/
+def foldName : Nat → Bytes → Option (Bytes × Bytes)
+  | 0, _ => none
+  | _ + 1, [] => none
+  | f + 1, l :: t =>
+    if l == 0 then some ([0], t)
+    else if l.toNat > 63 || t.length < l.toNat then none
+    else match foldName f (t.drop l.toNat) with
+      | none => none
+      | some (nm, rest) => some (l :: lower (t.take l.toNat) ++ nm, rest)
+
+def foldNames : Nat → Bytes → Option (Bytes × Bytes)
+  | 0, rd => some ([], rd)
+  | n + 1, rd =>
+    match foldName (rd.length + 1) rd with
+    | none => none
+    | some (nm, rest) =>
+      match foldNames n rest with
+      | none => none
+      | some (nms, rest') => some (nm ++ nms, rest')
+
+/-- where the names of a type's RDATA lie: octets before them, how many, octets after them. -/
+def rdataLayout (typ : Nat) (rd : Bytes) : Option (Nat × Nat × Nat) :=
+  if typ = 2 ∨ typ = 3 ∨ typ = 4 ∨ typ = 5 ∨ typ = 7 ∨ typ = 8 ∨ typ = 9 ∨ typ = 12 ∨ typ = 39 then some (0, 1, 0)
+  else if typ = 15 ∨ typ = 18 ∨ typ = 21 ∨ typ = 36 then some (2, 1, 0)
+  else if typ = 33 then some (6, 1, 0)
+  else if typ = 6 then some (0, 2, 20)
+  else if typ = 14 ∨ typ = 17 then some (0, 2, 0)
+  else if typ = 26 then some (2, 2, 0)
+  else if typ = 35 then
+    let s1 := 4 + 1 + (rd.getD 4 0).toNat
+    let s2 := s1 + 1 + (rd.getD s1 0).toNat
+    let s3 := s2 + 1 + (rd.getD s2 0).toNat
+    some (s3, 1, 0)
+  else none
+
+/-- the RDATA as it is signed: names of the listed types lowercased, everything
+else (NSEC, SVCB, unknown types …) as published. `none`: RDATA that does not
+parse under its type's layout. -/
+def canonRdata (typ : Nat) (rd : Bytes) : Option Bytes :=
+  match rdataLayout typ rd with
+  | none => some rd
+  | some (skip, n, tail) =>
+    if rd.length < skip then none else
+    match foldNames n (rd.drop skip) with
+    | none => none
+    | some (nms, rest) => if rest.length != tail then none else some (rd.take skip ++ nms ++ rest)
+
 /-! ## binding preflight (signature.go `signatureBinding`) on presentation names -/
 
 def equalFold (a b : Bytes) : Bool := lower a == lower b
